@@ -296,15 +296,15 @@ def run(repo: Repo, rep: Report, tier: str) -> None:
         order = []
         for n in walk_local(cf.node):
             if isinstance(n, ast.Call) and call_name(n) in ("ConstantPropagationOptimizer", "CSEOptimizer"):
-                order.append((n.lineno, n.col_offset, call_name(n)))
-        order.sort()
+                order.append((n.lineno, n.col_offset, call_name(n), n))
+        order.sort(key=lambda x: x[:3])
         names = [x[2] for x in order]
         rep.check(names == ["ConstantPropagationOptimizer", "CSEOptimizer"], "C10-R5",
                   f"{cf.short} pass order", f"passes constructed in order {names}", cf.loc())
         from ..cfg import CFG
         cfg = CFG(cf.node)
         guards = [s for s in cfg.stmts() if isinstance(s, ast.If) and norm(s.test) == "optimize"]
-        for _ln, nm, call in order:
+        for _ln, _col, nm, call in order:
             st = _stmt_of(cf, call)
             under = st is not None and any(g in cfg.ancestors(st) and st in _body_stmts(g.body) for g in guards)
             rep.check(under, "C10-R5", f"{cf.short} runs {nm} only under `if optimize`",
